@@ -4,6 +4,9 @@ from .common import *
 JAVA_TRACE_OPTS = "-Xss1g -Xmx3g -Dtlc2.tool.queue.IStateQueue=StateDeque"
 
 # ---------------------------------------------------------------- value parser
+_REC = re.compile(r"([A-Za-z_0-9]+)\s*\|->")
+_ATOM = re.compile(r"-?\d+|TRUE|FALSE|[A-Za-z_][A-Za-z_0-9]*")
+
 class _P:
     def __init__(self, s):
         self.s = s
@@ -47,7 +50,7 @@ class _P:
                 if self.peek() == "]":
                     self.i += 1
                     return out
-                m = re.compile(r"([A-Za-z_0-9]+)\s*\|->").match(self.s, self.i)
+                m = _REC.match(self.s, self.i)
                 if not m:
                     raise ValueError("bad record at %d: %r" % (self.i, self.s[self.i:self.i + 40]))
                 self.i = m.end()
@@ -65,7 +68,7 @@ class _P:
                 j += 1
             self.i = j + 1
             return "".join(buf)
-        m = re.compile(r"-?\d+|TRUE|FALSE|[A-Za-z_][A-Za-z_0-9]*").match(self.s, self.i)
+        m = _ATOM.match(self.s, self.i)
         if not m:
             raise ValueError("bad value at %d: %r" % (self.i, self.s[self.i:self.i + 40]))
         self.i = m.end()
@@ -83,26 +86,22 @@ def parse_value(s):
     return _P(s).value()
 
 def extract_tuples(out, tag):
-    """all values printed by PrintT(<<tag, ...>>) in TLC output"""
+    """all values printed by PrintT(<<tag, ...>>) in TLC output (linear in the size of the output)"""
     res = []
-    pat = '<< "%s"' % tag
-    alt = '<<"%s"' % tag
+    pat = re.compile(r'<<\s*"%s"' % re.escape(tag))
     i = 0
+    p = _P(out)
     while True:
-        j = out.find(pat, i)
-        k = out.find(alt, i)
-        if j < 0 or (0 <= k < j):
-            j = k
-        if j < 0:
+        m = pat.search(out, i)
+        if not m:
             break
-        p = _P(out)
-        p.i = j
+        p.i = m.start()
         try:
             v = p.value()
             res.append(v)
             i = p.i
         except Exception:
-            i = j + 2
+            i = m.start() + 2
     return res
 
 def _stats(out):
